@@ -204,6 +204,7 @@ Section Cancel.
   Lemma k_apply_one pl g s p : kstep s (apply_one sc pl g s p).
   Proof.
     unfold apply_one. destruct (p_local p) as [l|]; [|apply k_refl].
+    destruct (negb (kind_known sc (r_known s) (p_id p))); [ks|].
     pose proof (k_policy_apply_filter s (p_id p)) as P.
     destruct (policy_apply_filter sc s (p_id p)) as [s1 f1]. cbn [fst] in P.
     destruct (match f1 with FPass => _ | _ => _ end); try ks.
@@ -303,20 +304,23 @@ Section Cancel.
     - injection E as <- <-. exact S3.
   Qed.
 
+  Lemma k_wait_reset c ids s : kstep s (wait_reset sc c ids s).
+  Proof. apply k_same; [apply wait_reset_tr|apply wait_reset_abort]. Qed.
+
   Lemma k_wait_task c g ids s : kstep s (wait_task sc c g ids s).
   Proof.
     unfold wait_task.
     pose proof (k_wait_start c g ids s) as S1.
     destruct (wait_start c g ids s) as [s1 w1]. cbn [fst] in S1.
-    destruct (w_pending w1); [exact S1|].
+    destruct (w_pending w1); [eapply k_tr; [exact S1|apply k_wait_reset]|].
     destruct (match e_watch_err_at (sc_env sc) with Some n => Nat.eqb n (snd g) | None => false end);
       [eapply k_tr; [exact S1|apply k_set_abort]|].
     pose proof (k_deliver c g ids (w_deliv (nth (snd g) (e_waits (sc_env sc)) (mkW [] WTimeout))) s1 w1) as S2.
     destruct (deliver sc c g ids _ s1 w1) as [s2 w2]. cbn [fst] in S2.
     eapply k_tr; [exact S1|]. eapply k_tr; [exact S2|].
-    destruct (w_pending w2); [apply k_refl|].
+    destruct (w_pending w2); [apply k_wait_reset|].
     destruct (w_end _).
-    - destruct (match c with AllCurrent => _ | AllNotFound => _ end); [apply k_wait_timeout|apply k_set_abort].
+    - destruct (match c with AllCurrent => _ | AllNotFound => _ end); [eapply k_tr; [apply k_wait_timeout|apply k_wait_reset]|apply k_set_abort].
     - apply k_set_abort.
   Qed.
 
